@@ -102,6 +102,10 @@ class Linop:
         try:
             self._check_ishape(input)
             output = self._apply(input)
+            if np.isscalar(output):
+                # arithmetic on 0-d arrays returns scalars; keep an array
+                output = np.asarray(output)
+
             self._check_oshape(output)
         except Exception as e:
             raise RuntimeError("Exceptions from {}.".format(self)) from e
